@@ -1,0 +1,187 @@
+//go:build verif
+
+package client
+
+import (
+	"fmt"
+	"sync"
+	"time"
+
+	"github.com/arm-doe/sts"
+)
+
+// Exports for the verification harness in /verif (build tag "verif" only): run the real
+// startSend / handleSendError / startTrack of a Broker in isolation, with the channels
+// and the tag map made as Start makes them.
+
+// VerifSendPart describes one chunk of a file to be put into a payload.
+type VerifSendPart struct {
+	ID       string
+	Name     string
+	Hash     string
+	FileSize int64
+	SendSize int64
+	Beg      int64
+	Len      int64
+	// OnPrev, when set, is called with ID whenever GetPrev is asked of this chunk; the
+	// tracker does so once per part just before it adds the part's length.
+	OnPrev func(id string)
+}
+
+// verifSendable is a minimal sts.Sendable.
+type verifSendable struct {
+	p VerifSendPart
+}
+
+func (f *verifSendable) GetPath() string    { return f.p.Name }
+func (f *verifSendable) GetName() string    { return f.p.Name }
+func (f *verifSendable) GetSize() int64     { return f.p.FileSize }
+func (f *verifSendable) GetTime() time.Time { return time.Unix(1700000000, 0) }
+func (f *verifSendable) GetMeta() []byte    { return nil }
+func (f *verifSendable) GetHash() string    { return f.p.Hash }
+func (f *verifSendable) GetPrev() string {
+	if f.p.OnPrev != nil {
+		f.p.OnPrev(f.p.ID)
+	}
+	return ""
+}
+func (f *verifSendable) GetSlice() (int64, int64) { return f.p.Beg, f.p.Len }
+func (f *verifSendable) GetSendSize() int64       { return f.p.SendSize }
+
+// VerifSendBinnable wraps the chunk in the client's own `binnable` (what startBin hands to
+// Payload.Add).
+func VerifSendBinnable(p VerifSendPart) sts.Binnable {
+	return &binnable{Sendable: &verifSendable{p: p}}
+}
+
+// VerifSendID returns the ID given to VerifSendBinnable ("" for anything else).  Meant to
+// be used as the payload's Rename function so that every Binned part carries its identity.
+func VerifSendID(f sts.File) string {
+	if b, ok := f.(*binnable); ok {
+		if s, ok := b.Sendable.(*verifSendable); ok {
+			return s.p.ID
+		}
+	}
+	return ""
+}
+
+// VerifProgress exposes name, hash, sent and size of a tracker entry (what Logger.Sent
+// and the validator channel receive).
+func VerifProgress(s interface{}) (name, hash string, sent, size int64, ok bool) {
+	if p, isP := s.(*progressFile); isP {
+		return p.name, p.hash, p.sent, p.size, true
+	}
+	return "", "", 0, 0, false
+}
+
+// VerifSendRig is a Broker with only its channels and tag map initialised.
+type VerifSendRig struct {
+	broker  *Broker
+	wgSend  sync.WaitGroup
+	wgTrack sync.WaitGroup
+	mu      sync.Mutex
+	panics  []string
+}
+
+// a panic inside one of the broker's goroutines is recorded instead of ending the process
+func (r *VerifSendRig) recoverPanic() {
+	if x := recover(); x != nil {
+		r.mu.Lock()
+		r.panics = append(r.panics, fmt.Sprint(x))
+		r.mu.Unlock()
+	}
+}
+
+// Panics returns what the broker's goroutines panicked with so far.
+func (r *VerifSendRig) Panics() []string {
+	r.mu.Lock()
+	defer r.mu.Unlock()
+	return append([]string(nil), r.panics...)
+}
+
+// VerifNewSendRig builds the broker as Start does (channels of capacity Threads*2).
+func VerifNewSendRig(conf *Conf) *VerifSendRig {
+	broker := &Broker{Conf: conf}
+	broker.throughput = &throughputMonitor{logInterval: conf.StatInterval}
+	broker.tagMap = make(map[string]*FileTag)
+	broker.cleanAll = true
+	for _, tag := range conf.Tags {
+		broker.tagMap[tag.Name] = tag
+		broker.cleanAll = broker.cleanAll && tag.Delete
+		broker.cleanSome = broker.cleanSome || tag.Delete
+	}
+	broker.chStop = make(chan bool)
+	broker.chScanned = make(chan []sts.Hashed, 1)
+	broker.chQueued = make(chan sts.Sendable, conf.Threads*2)
+	broker.chRetry = make(chan sts.Polled, conf.Threads*2)
+	broker.chTransmit = make(chan sts.Payload, conf.Threads*2)
+	broker.chTransmitted = make(chan sts.Payload, conf.Threads*2)
+	broker.chStats = make(chan sts.Payload, conf.Threads*2)
+	broker.chValidate = make(chan sts.Pollable, conf.Threads*2)
+	return &VerifSendRig{broker: broker}
+}
+
+// StartSend runs n startSend goroutines.
+func (r *VerifSendRig) StartSend(n int) {
+	r.wgSend.Add(n)
+	for i := 0; i < n; i++ {
+		go func() {
+			defer r.recoverPanic()
+			r.broker.startSend(&r.wgSend)
+		}()
+	}
+}
+
+// StartTrack runs the startTrack goroutine.
+func (r *VerifSendRig) StartTrack() {
+	r.wgTrack.Add(1)
+	go func() {
+		defer r.recoverPanic()
+		r.broker.startTrack(&r.wgTrack)
+	}()
+}
+
+// Transmit feeds chTransmit (what startBin does).
+func (r *VerifSendRig) Transmit(p sts.Payload) { r.broker.chTransmit <- p }
+
+// CloseTransmit closes chTransmit (Start does so after the binner is done).
+func (r *VerifSendRig) CloseTransmit() { close(r.broker.chTransmit) }
+
+// WaitSend waits for the startSend goroutines.
+func (r *VerifSendRig) WaitSend() { r.wgSend.Wait() }
+
+// FeedTransmitted feeds chTransmitted directly (input of the tracker).
+func (r *VerifSendRig) FeedTransmitted(p sts.Payload) { r.broker.chTransmitted <- p }
+
+// CloseTransmitted closes chTransmitted (Start does so after the senders are done).
+func (r *VerifSendRig) CloseTransmitted() { close(r.broker.chTransmitted) }
+
+// WaitTrack waits for the tracker, at most d; it reports whether the tracker returned.
+func (r *VerifSendRig) WaitTrack(d time.Duration) bool {
+	done := make(chan struct{})
+	go func() { r.wgTrack.Wait(); close(done) }()
+	select {
+	case <-done:
+		return true
+	case <-time.After(d):
+		return false
+	}
+}
+
+// Transmitted, Stats, Validate are the output channels.
+func (r *VerifSendRig) Transmitted() <-chan sts.Payload { return r.broker.chTransmitted }
+func (r *VerifSendRig) Stats() <-chan sts.Payload       { return r.broker.chStats }
+func (r *VerifSendRig) Validate() <-chan sts.Pollable   { return r.broker.chValidate }
+
+// CloseStats and CloseValidate close the two output channels (Start does so at its end).
+func (r *VerifSendRig) CloseStats()    { close(r.broker.chStats) }
+func (r *VerifSendRig) CloseValidate() { close(r.broker.chValidate) }
+
+// StopNow sets the broker's "stop now" flags (what Start's stop goroutine does for a
+// non-graceful stop) so that leftover goroutines return.
+func (r *VerifSendRig) StopNow() {
+	r.broker.stopMux.Lock()
+	r.broker.stop = true
+	r.broker.stopGraceful = false
+	r.broker.stopMux.Unlock()
+}
